@@ -9,7 +9,8 @@ from ..gen.models import build_model, model_labels, model_spec, random_state
 ID = "C04"
 RULE = (
     "Hypothesis draws a single-phase-flow or mass-and-energy model on the library's 2-d / 3-d test geometries with a "
-    "random subset of 0-3 fractures (Cartesian; simplex via gmsh in the thorough tier), closed boundaries (a harness "
+    "random subset of 0-3 fractures (Cartesian; simplex via gmsh in the thorough tier), in a quarter of the cases with the "
+    "differentiable flux laws DarcysLawAd / FouriersLawAd mixed in, closed boundaries (a harness "
     "mixin makes every boundary face Neumann with zero flux; no sources), random constants (compressible and "
     "incompressible fluid), a random time step, an ARBITRARY state (random pressures, temperatures and interface "
     "fluxes - not a solution) and a random previous-time-step state; upwind discretizations are updated to the state. "
@@ -27,7 +28,16 @@ LEVEL_NOTE = ("Uses the model's own accumulation operators as the definition of 
               "library's small test geometries; case counts in the hundreds.")
 DESIGN_REF = "DESIGN.md section 4, C04"
 ASSUMPTIONS = ["closed boundaries and zero sources imposed through the model's bc_type_* hooks"]
-REQUIRED = {}
+REQUIRED = {"ad-flux": 0.08}
+
+
+def _known_adflux_energy(s):
+    """Energy balance with the differentiable Fourier law on a domain with at least one fracture (an interface whose
+    conductive flux is dropped from the matrix-side face fluxes)."""
+    return bool(s.get("adflux")) and s["model"] == "energy" and len(s["fracs"]) >= 1
+
+
+KNOWN = {"C04-fouriers-law-ad-drops-interface-flux": _known_adflux_energy}
 
 
 def _closed_mixin():
@@ -53,8 +63,8 @@ def _closed_mixin():
 
 def strategy(tier):
     if tier == "quick":
-        return model_spec(models=("mass_balance", "energy"), dims=(2, 2, 2, 2, 3), simplex=False, nonmatching=True)
-    return model_spec(models=("mass_balance", "energy"), dims=(2, 2, 3), simplex=True, nonmatching=True)
+        return model_spec(models=("mass_balance", "energy"), dims=(2, 2, 2, 2, 3), simplex=False, nonmatching=True, adflux=("tpfa", "mpfa"))
+    return model_spec(models=("mass_balance", "energy"), dims=(2, 2, 3), simplex=True, nonmatching=True, adflux=("tpfa", "mpfa"))
 
 
 def warmup():
